@@ -1027,9 +1027,9 @@ func (s *c16Scn) replayFinding13() {
 	s.restoreRaw(b, al, [8]int{}, [8]int{}) // dns-udp6 revives by restore without latency
 }
 
-// boundary of the one-hour sentinel in NotifyLatencyChange: a node that revives with a sorting latency
-// above time.Hour (minus tolerance) is added to the set but not selected (no group callback); at
-// exactly one hour it is selected.  Mirrors Props.kernel_bit_full_fails.
+// boundary of the one-hour start value in NotifyLatencyChange / calcMinLatency: before fix addc261 a
+// node reviving with a sorting latency above time.Hour (minus tolerance) was added to the set but never
+// selected (no group callback, kernel bit stuck at 0); now it is selected whatever its latency.
 func (s *c16Scn) replayHourSentinel() {
 	a := s.addNode(0)
 	s.addGroup("min_last", 0, []*c16Node{a}, []time.Duration{0})
